@@ -44,11 +44,15 @@ def catalogue():
 
 
 CAT = catalogue()
-# reduced catalogue for the middle event of depth-3 sequences
-CAT2 = [c for c in CAT if c[0] != "resp" or (c[2] in ("own", "otherport") and c[1] in ("A", "never") and c[4] == 0)]
+# reduced catalogue for the middle event of depth-3 sequences: the state-changing representatives (events after a shutdown are
+# not applied, so shutdown is never a middle event)
+CAT2 = [("resp", "A", "own", 0, 0), ("resp", "A", "own", 1, 0), ("resp", "A", "own", 2, 0), ("resp", "never", "own", 0, 0),
+        ("resp", "A", "otherport", 0, 0), ("rst", "A"), ("rst", "B"), ("eack", "A"), ("eack", "B"), ("dup",), ("err", 0), ("err", 1),
+        ("timer",), ("cancelled-early", 0), ("followup", 0)]
+assert all(c in CAT for c in CAT2)
 
 
-def mk_events(first, depth, combos3=True):
+def mk_events(first, depth, combos3=True, only_combo=None):
     def make(reach):
         import asyncio
         from vf import stack
@@ -66,6 +70,7 @@ def mk_events(first, depth, combos3=True):
 
         def h(cmb: int, e2: int, e3: int) -> None:
             assert 0 <= cmb < len(COMBOS) and 0 <= e2 < len(CAT) and 0 <= e3 < len(CAT) and (depth < 3 or CAT[e2] in CAT2)
+            assert only_combo is None or cmb == only_combo
             ta, tb, eb = pick(COMBOS, cmb)
             evs = [first, e2, e3][:depth]
             with SimLoop() as loop:
@@ -370,10 +375,16 @@ def obligations(tier):
     obs = []
     firsts = list(range(len(CAT)))
     for first in firsts:
-        obs.append(Obligation("events-first%02d" % first, mk_events(first, depth), 280 if q else 1500, functions=FUNCS,
-                              symbolic={"(type of A, type of B, endpoint of B)": "index over 3 combinations", "later events": "%d indices over %d catalogue entries" % (depth - 1, len(CAT))},
-                              concrete={"first event": repr(CAT[first])},
-                              stubs=["SimLoop", "FakeDatagramTransport", "integer tuning", "random stubs"]))
+        for cmb in ([None] if q else [0, 1, 2]):
+            if not q and CAT[first][0] in ("shutdown", "shutdown-race"):
+                if cmb:
+                    continue
+                cmb = None          # nothing follows a shutdown: the depth-2 form is the whole story
+            obs.append(Obligation("events-first%02d%s" % (first, "" if cmb is None else "-c%d" % cmb), mk_events(first, depth, only_combo=cmb), 280 if q else 1500, functions=FUNCS,
+                                  symbolic={"(type of A, type of B, endpoint of B)": "index over 3 combinations" if cmb is None else "fixed",
+                                            "later events": "%d indices over %d catalogue entries%s" % (depth - 1, len(CAT), "" if q else " (middle event: %d state-changing representatives)" % len(CAT2))},
+                                  concrete={"first event": repr(CAT[first])} if cmb is None else {"first event": repr(CAT[first]), "combination": cmb},
+                                  stubs=["SimLoop", "FakeDatagramTransport", "integer tuning", "random stubs"]))
     obs.append(Obligation("token-injective-e2", mk_tokens, 300, kind="pysym", functions=["TokenManager.next_token (AST -> z3 BV80)"],
                           symbolic={"counter value": "[0, 2^64) as BitVec"},
                           stubs=["translator rules for int.to_bytes(n,'big') and bytes.lstrip(b'\\0'), validated on 10 concrete vectors per run"]))
